@@ -34,7 +34,6 @@ func nonTrivialEnc(enc string) bool {
 	return nonTrivialForest(f)
 }
 
-func c12Worker() {}
 func c17Driver() {}
 
 func nonNil(v []Violation) []Violation {
